@@ -286,6 +286,38 @@ def oracle_trace(ops, obs, pid='C03', kind=None):
                 P.append((pid + ':wrong-exception', 'op %d %r: undo raised %s' % (i, op, ob)))
             elif merged is not None:
                 P.append((pid + ':resolver-not-invoked', 'op %d %r: UndoError although the merge %s exists' % (i, op, merged)))
+        elif o == 'undotxn':
+            # expectation from the history tracked so far (real outcomes only)
+            tid, oid, undone = int(tk[1]), int(tk[2]), int(tk[3])
+            h = hist.get(oid, [])
+            calls = [x for x in parts if x.startswith('call=')]
+            idx = max([j for j, (t2, _) in enumerate(h) if t2 == undone], default=None)
+            bump('undotxn:' + first)
+            if calls:
+                nontrivial = True
+                bump('resolver-invoked:' + K.TABLE.get(int(calls[0][5:].split('|')[0]), ('', '?'))[1])
+            if idx is None or idx == 0:
+                exp_out, exp_calls = None, None            # unknown tid / undo of the creation: not judged
+            elif idx == len(h) - 1 or h[idx][1] == h[-1][1]:
+                exp_out, exp_calls = 'ok ' + h[idx - 1][1], []
+            else:
+                pre, curw, und = h[idx - 1][1], h[-1][1], h[idx][1]
+                exp_calls = [expected_call(pre, und, curw)] if resolvable_class(pre) else []
+                merged = expected_merge(pre, und, curw)
+                exp_out = ('ok ' + merged) if merged is not None else 'err:Undo'
+                if idx != len(h) - 1 and len(h) - 1 - idx >= 1 and isinstance(h[-1], tuple) and len(h[-1]) > 2:
+                    bump('undo-over-undo-record')
+            if exp_out is not None:
+                got_out = ' '.join(x for x in parts if not x.startswith('call='))
+                if calls != exp_calls:
+                    P.append((pid + ':undo-resolver-arguments',
+                              'op %d %r: undo called the resolver with %s, expected (state written by the undone '
+                              'transaction, CURRENT state, state before the undone transaction) = %s' % (i, op, calls, exp_calls)))
+                elif got_out != exp_out:
+                    P.append((pid + (':wrong-exception' if first.startswith('err:Other') else ':undo-stored-differs'),
+                              'op %d %r: undo gave %s, expected %s' % (i, op, got_out, exp_out)))
+            if first == 'ok' and len(parts) > 1:
+                hist.setdefault(oid, []).append((tid, parts[1]))
         elif o == 'cur':
             p = last(int(tk[1]))
             exp = str(p[0]) if p else 'none'
@@ -499,13 +531,15 @@ def gen_db_case(rng, kind, size):
         c = rng.randrange(nconn)
         r = rng.random()
         o = rng.choice(objs)
-        if r < 0.30:
+        if r < 0.26:
             prog.append(['read', c, o])
-        elif r < 0.58:
+        elif r < 0.54:
             prog.append(['write', c, o, rng.choice([1, 2, 3])])
-        elif r < 0.70:
+        elif r < 0.67:
             prog.append(['readcur', c, o])
-        elif r < 0.93:
+        elif r < 0.78:
+            prog.append(['savepoint', c])       # commit then takes the _commit_savepoint route
+        elif r < 0.94:
             prog.append(['commit', c])
         else:
             prog.append(['abort', c])
@@ -669,6 +703,9 @@ class ConnActor:
                     after[o] = _get(root[o])       # what the writer's own connection reads now
             self.log.append(('commit', self.name, out, tid, dict(self.pending), dict(self.readcur), after, ghost))
             self.pending, self.readcur = {}, {}
+        elif kind == 'savepoint':
+            self.tm.savepoint()
+            self.log.append(('savepoint', self.name))
         elif kind == 'abort':
             self.tm.abort()
             self.pending, self.readcur = {}, {}
@@ -819,6 +856,8 @@ def gen_sched_case(rng, kind, seed):
                 p.append(['read', 0, rng.choice(objs)])
             for _ in range(rng.choice([1, 1, 2])):
                 p.append(['write', 0, rng.choice(objs), rng.choice([1, 2, 3])])
+                if rng.random() < 0.2:
+                    p.append(['savepoint', 0])
             if rng.random() < 0.2:
                 p.append(['readcur', 0, rng.choice(objs)])
             p.append(['commit', 0])
